@@ -88,6 +88,12 @@ def _try_to_reorder(
             *args,
             **kwargs
             ) -> _Ret:
+        # `func` may be called twice, so store
+        # the items of iterators among the arguments
+        args = tuple(map(_store_iterator, args))
+        kwargs = {
+            k: _store_iterator(v)
+            for k, v in kwargs.items()}
         with _ReorderingContext(bdd):
             return func(
                 bdd,
@@ -110,6 +116,20 @@ def _try_to_reorder(
             bdd._last_len = GROWTH_FACTOR * len_after
         return r
     return _wrapper
+
+
+def _store_iterator(
+        value:
+            _ty.Any
+        ) -> _ty.Any:
+    """Return `list` of items if `value` is an iterator.
+
+    Any other `value` is returned unchanged.
+    An iterator can be read only once.
+    """
+    if isinstance(value, _abc.Iterator):
+        return list(value)
+    return value
 
 
 def _suspend_reordering(
